@@ -103,7 +103,7 @@ def conv_law(l1, l2):
 
 
 # ---- Coq side ---------------------------------------------------------------------------
-COQ_HDR = ("From Coq Require Import List ZArith QArith Qcanon.\nFrom Polar Require Import Qcx Stats.\n"
+COQ_HDR = ("From Coq Require Import List ZArith QArith Qcanon.\nFrom Polar Require Import Qcx Stats StatsFps StatsHermite.\n"
            "From PolarGen Require Import StatsGen.\nImport ListNotations.\nLocal Open Scope Qc_scope.\n")
 
 
@@ -497,6 +497,17 @@ def part_polys(st):
     ctx = st.ctx
     N = 8
     res = lib.run_tasks([{"kind": "stats_polys", "n": n} for n in range(0, N + 1)], timeout=120, jobs=5)
+    # the Coq He_n (about which C11_hermite_* are proved) == Polar's prob_hermite_poly(n, x)
+    model, log = coq_eval(ctx, "c11_hermite", [f"(hermite {n})" for n in range(0, N + 1)])
+    if model is None:
+        if ctx.c11_have_model:
+            st.broken.append(("hermite model evaluation failed", log[-600:]))
+    else:
+        for n, (coefs, r) in enumerate(zip(model, res)):
+            if "hermite" in r:
+                got = {int(k): Fr(v) for k, v in r["hermite"].items()}
+                st.corr({d: c for d, c in enumerate(coefs) if c != 0} == got,
+                        "Coq hermite n differs from prob_hermite_poly(n, x)", {"n": n, "polar": r["hermite"]})
     for n, r in enumerate(res):
         ctx.count(("poly", n), nontrivial=n >= 2)
         if "hermite" not in r:
@@ -560,6 +571,7 @@ def part_expansions(st):
         cases.append(cums)
     res = lib.run_tasks([{"kind": "stats_expansions", "cumulants": [fs(c) for c in cs], "timeout": 200} for cs in cases],
                         timeout=200, jobs=10)
+    shape_cases = []
     for cums, r in zip(cases, res):
         K = len(cums)
         cj = [fs(c) for c in cums]
@@ -571,6 +583,7 @@ def part_expansions(st):
             g = gauss_moments(cums[0], cums[1], K + max(pol) + 1)
             mom = [sum((c * g[d + m] for d, c in pol.items()), Fr(0)) for m in range(0, K + 1)]
             want = [Fr(1)] + moments_expseries(cums)
+            shape_cases.append((cums, pol))
             if mom != want:
                 first = next(m for m in range(K + 1) if mom[m] != want[m])
                 st.viol(f"gram-charlier:{cj}", {"cumulants": cj, "density_polynomial_factor": r["gc_poly"], "moment_order": first,
@@ -594,6 +607,50 @@ def part_expansions(st):
                     ctx.coverage["discharged"] += 1
             if len(ctx.coverage["samples"]) < 6 and K == 4:
                 ctx.sample({"cumulants": cj, "cornish_fisher_polynomial_in_z": r.get("cf_poly"), "equals_textbook_order4": True})
+    gc_shape_tie(st, shape_cases)
+
+
+def poly_compose_affine(pol, mu, sig):
+    """coefficients (in z) of P(mu + sig z)"""
+    out = {}
+    for d, c in pol.items():
+        for j in range(d + 1):
+            out[j] = out.get(j, Fr(0)) + c * math.comb(d, j) * sig ** j * mu ** (d - j)
+    return out
+
+
+def gc_shape_tie(st, shape_cases):
+    """Polar's density factor, in the standardised variable, is 1 + sum_{i=3..K} c_i He_i(z) with
+    c_i = B_i(0,0,k3..ki)/(i! sigma^i): the shape about which C11_gram_charlier_partial is proved"""
+    ctx = st.ctx
+    terms, expect = [], []
+    for cums, pol in shape_cases[:ctx.pick(8, 30)]:
+        K = len(cums)
+        mu, s2 = cums[0], cums[1]
+        sig = Fr(math.isqrt(s2.numerator), math.isqrt(s2.denominator))
+        cs = {}
+        for i in range(3, K + 1):
+            xs = [Fr(0), Fr(0)] + list(cums[2:i])
+            b = Fr(0)
+            for js, coeff in bell_ref(i).items():
+                t = coeff
+                for x, j in zip(xs, js):
+                    t *= x ** j
+                b += t
+            cs[i] = b / (math.factorial(i) * sig ** i)
+        cfun = "(fun i : nat => match i with " + " ".join(f"| {i}%nat => {lib.cq(c)}" for i, c in cs.items()) + " | _ => 0 end)"
+        terms.append(f"(gc_poly {cfun} {K})")
+        q = poly_compose_affine(pol, mu, sig)
+        expect.append(({d: c for d, c in q.items() if c != 0}, [fs(c) for c in cums]))
+    out, log = coq_eval(ctx, "c11_gcshape", terms)
+    if out is None:
+        if ctx.c11_have_model:
+            st.broken.append(("gc_poly model evaluation failed", log[-600:]))
+        return
+    for coefs, (q, cj) in zip(out, expect):
+        st.corr({d: c for d, c in enumerate(coefs) if c != 0} == q,
+                "GramCharlierExpansion's polynomial factor is not 1 + sum c_i He_i((x-mu)/sigma) with the Bell coefficients",
+                {"cumulants": cj})
 
 
 def run(ctx):
